@@ -244,3 +244,29 @@ def resolve_local(cfg, node, expr, depth=2):
         expr = a.value
         depth -= 1
     return expr
+
+
+def implied_by(test, hyps: set[str]) -> bool:
+    """Is `test` true whenever every hypothesis (normalised source texts of tests assumed true) holds?
+    Syntactic: the test is a hypothesis, an `isinstance` whose class tuple contains a hypothesis's class, an `and`
+    of implied operands or an `or` with an implied operand.  Used for "this guard must not be narrower than …"."""
+    if norm_text(test) in hyps:
+        return True
+    if isinstance(test, ast.Call) and dotted(test.func) == 'isinstance' and len(test.args) == 2:
+        subj = norm_text(test.args[0])
+        classes = ExcLattice.names_of(test.args[1])
+        for h in hyps:
+            try:
+                ht = ast.parse(h, mode='eval').body
+            except SyntaxError:
+                continue
+            if isinstance(ht, ast.Call) and dotted(ht.func) == 'isinstance' and len(ht.args) == 2 and norm_text(ht.args[0]) == subj:
+                hc = ExcLattice.names_of(ht.args[1])
+                if hc and all(c in classes for c in hc):
+                    return True
+        return False
+    if isinstance(test, ast.BoolOp):
+        if isinstance(test.op, ast.And):
+            return all(implied_by(v, hyps) for v in test.values)
+        return any(implied_by(v, hyps) for v in test.values)
+    return False
